@@ -57,9 +57,29 @@ for c in calls:
                 r = utils.valid_against_schema(c[1], c[2], c[3])
         out.append(['return', r])
     except Exception as e:
-        out.append(['raise', type(e).__name__])
+        out.append(['raise', type(e).__name__, str(getattr(e, 'message', ''))[:300], [str(x) for x in getattr(e, 'path', [])]])
 print('RESULT' + json.dumps({'out': out, 'net': net}))
 '''
+
+
+SCRIBBLE = 'scribbled on by an earlier caller'
+
+
+def describe_error(e):
+    """the error as a caller sees it: class, message and the path to the offending item"""
+    return ['raise', type(e).__name__, str(getattr(e, 'message', ''))[:300], [str(x) for x in getattr(e, 'path', [])]]
+
+
+def scribble(e):
+    """what a caller may do to an error it has caught (it is the caller's object): a later caller must get its own"""
+    try:
+        if hasattr(e, 'path'):
+            e.path.clear()
+        if hasattr(e, 'message'):
+            e.message = SCRIBBLE
+        e.args = ('scribble',)
+    except Exception:
+        pass
 
 
 def fresh(calls):
@@ -118,6 +138,10 @@ def alphabet(tier):
         for ef in (False, True):
             V.append(['V', d, sch[len('json/'):], ef])
             V.append(['V', os.path.join(core.REPO, d), sch, ef])
+    # the same two files in swapped roles (a sample used as the schema constrains nothing, a schema is a JSON document too)
+    for (d, sch), _valid in sorted(expect.items())[::3]:
+        for ef in (False, True):
+            V.append(['V', sch, d, ef])
     return S, V, expect
 
 
@@ -144,6 +168,16 @@ def build_table(tier):
         table[json.dumps(c)] = list(out[0])
         net.extend(n)
     return {'table': table, 'net': net, 'expect': {json.dumps(k): v for k, v in expect.items()}}
+
+
+class _Shown(Exception):
+    """stands for an error that has been handed to the (hostile) caller: described first, then scribbled on"""
+
+    def __init__(self, e):
+        self.shown = describe_error(e)
+        self.cls = type(e).__name__
+        scribble(e)
+        Exception.__init__(self, self.cls)
 
 
 class Monitor(object):
@@ -177,7 +211,18 @@ class Monitor(object):
         ctx = self.ctx
         ctx.count('eval.call')
         want = self.table.get(json.dumps(call))
-        got = ['return', out.value] if out.ok else ['raise', type(out.value).__name__]
+        got = ['return', out.value] if out.ok else describe_error(out.value)
+        if not out.ok and (got[2] == SCRIBBLE or getattr(out.value, 'args', None) == ('scribble',)):
+            # the object an earlier caller caught (and scribbled on) has been raised again
+            ctx.violation('history:%s:the-error-raised-is-an-earlier-caller-s-object' % ('schema_valid' if call[0] == 'S' else 'valid_against_schema'),
+                          {'history': self.history[-25:], 'call': call}, 'an error of its own', got)
+            self.history.append(call)
+            return
+        if (ctx.ambient or {}).get('hashseed', '0') != '0' and want is not None and want[0] == 'raise' and got[0] == 'raise':
+            # which of several equally relevant errors jsonschema reports first depends on the string-hash seed; the table was
+            # made under seed 0, so message and path are compared in the seed-0 shards only
+            want = want[:2]
+            got = got[:2]
         warm = key_of(call) in [key_of(h) for h in self.history]
         self.history.append(call)
         if want is None:
@@ -190,14 +235,16 @@ class Monitor(object):
             hist = self.history[:-1]
             same = [h for h in hist if key_of(h) == key_of(call)]
             k = 'history:%s:' % ('schema_valid' if call[0] == 'S' else 'valid_against_schema')
-            if any(h[3] is False for h in same) and call[3] is True and want[0] == 'raise' and got == ['return', False]:
+            if want[:2] == got[:2]:
+                k += 'the-error-raised-differs-in-message-or-path(an-earlier-caller-s-object-handed-out-again)'
+            elif any(h[3] is False for h in same) and call[3] is True and want[0] == 'raise' and got == ['return', False]:
                 k += 'cached-False-answered-to-expect_failure-call'
             elif same:
-                k += 'same-key-earlier:%s->%s' % (want, got)
+                k += 'same-key-earlier:%s->%s' % (want[:2], got[:2])
             elif len(hist) >= 20:
-                k += 'after-cache-overflow:%s->%s' % (want, got)
+                k += 'after-cache-overflow:%s->%s' % (want[:2], got[:2])
             else:
-                k += 'other-key-earlier:%s->%s' % (want, got)
+                k += 'other-key-earlier:%s->%s' % (want[:2], got[:2])
             ctx.violation(k, {'history': hist[-25:], 'call': call}, want, got)
 
     def on_schema_valid(self, args, kwargs, out):
@@ -217,8 +264,12 @@ class Monitor(object):
         import io
         with contextlib.redirect_stdout(io.StringIO()):
             if call[0] == 'S':
-                return attach.call(self.u.schema_valid, call[1], getattr(self.js, call[2]), call[3])
-            return attach.call(self.u.valid_against_schema, call[1], call[2], call[3])
+                o = attach.call(self.u.schema_valid, call[1], getattr(self.js, call[2]), call[3])
+            else:
+                o = attach.call(self.u.valid_against_schema, call[1], call[2], call[3])
+        if not o.ok:
+            o = attach.Outcome('raise', _Shown(o.value))
+        return o
 
     def run_sequence(self, seq):
         self.reset()
@@ -265,6 +316,13 @@ def sequences(tier, seed, S, V):
             seqs.append([a, b])
             seqs.append([b, a])
             seqs.append([a, b, a])
+    # a document / schema pair, then the same two files the other way round, and back
+    swapped = [c for c in V if c[1].startswith('json/') and c[2].startswith('sample-jsons/')]
+    for c in swapped:
+        straight = ['V', c[2], c[1], False]
+        for first in (straight, ['V', c[2], c[1], True]):
+            seqs.append([first, c])
+            seqs.append([c, first, c])
     # runs of bare-named files (each one goes through the lookup's fall-back branch)
     bare = [c for c in S + V if not (c[1].startswith('json/') or c[1].startswith('sample-jsons/') or c[1].startswith('/')) or
             (c[0] == 'V' and not c[2].startswith('json/'))]
@@ -321,7 +379,7 @@ def run_shard(ctx, spec):
                 ctx.nt(('sample', d))
             t2 = table['table'].get(json.dumps(['V', d, sch, True]))
             want2 = ['return', True] if valid else ['raise', 'ValidationError']
-            if t2 != want2:
+            if (t2 or [])[:2] != want2:
                 ctx.violation('samples:expect_failure-outcome', {'doc': d, 'schema': sch}, want2, t2)
         if table['net']:
             ctx.violation('offline:network-access-while-resolving-refs', {'events': table['net'][:5]}, 'no network access', table['net'][:5])
@@ -333,7 +391,7 @@ def run_shard(ctx, spec):
             got = []
             for c in s:
                 o = mon.do(c)
-                got.append(('return', o.value) if o.ok else ('raise', type(o.value).__name__))
+                got.append(('return', o.value) if o.ok else tuple(o.value.shown))
             ctx.count('eval.fresh-sequence-crosscheck')
             if [tuple(x) for x in out] != got:
                 ctx.violation('harness:in-process-reset-not-faithful', {'seq': s[:10]}, out[:10], got[:10])
